@@ -26,6 +26,9 @@ pub fn gen_simcfg(r: &mut Rng) -> SimCfg {
     c.atomic_every = *r.pick(&[0u64, 0, 1, 1, 2, 5, 17]);
     c.atomic_load_every = *r.pick(&[0u64, 0, 0, 1, 1, 3, 11]);
     c.spurious_wake_rate = *r.pick(&[0.0, 0.0, 0.0, 0.02, 0.1, 0.3]);
+    // the wall clock (what chrono reads: time stamps, reported durations) may be set back while a batch runs
+    c.wall_step_rate = *r.pick(&[0.0, 0.0, 0.0, 0.01, 0.1, 0.5]);
+    c.wall_step_ns = *r.pick(&[1_000u64, 1_000_000_000, 3_600_000_000_000, 86_400_000_000_000]) + r.below(1000);
     if c.sched == SchedMode::PctSync {
         // synchronisation events are the whole point of this policy
         c.atomic_every = 1;
